@@ -438,10 +438,126 @@ func envStdMap2() interface{} {
 	}
 }
 
+// "map3" / "struct3": same names, types AND shapes (lengths, key sets) as map / struct,
+// other element values: a host that keeps its containers and overwrites elements in place.
+func envStdStruct3() interface{} {
+	return &EnvStruct{
+		N: 43, X: 3.5, S: "hollo", B: true,
+		L: []int{4, 2, 4, 3}, Ls: []string{"b", "c", "b", "d"},
+		M:  map[string]int{"k1": 11, "k2": 12, "k3": 13, "k4": 14},
+		Mi: map[int]string{1: "uno", 2: "dos", 3: "tres"},
+		O:  Inner{8, "eight", []string{"y", "z"}},
+		P:  &WithMaybe{A: 2.5, B: intp(6), C: nil},
+		T:  time.Unix(1600000100, 0),
+		Ll: [][]int{{2, 3}, {4}},
+		Lo: []Inner{{2, "b", nil2()}, {3, "c", []string{"u"}}},
+		Mo: map[string]Inner{"u": {2, "b", []string{"r"}}, "v": {3, "c", []string{"s"}}},
+	}
+}
+
+func envStdMap3() interface{} {
+	e := envStdStruct3().(*EnvStruct)
+	return map[string]interface{}{
+		"n": e.N, "x": e.X, "s": e.S, "b": e.B, "l": e.L, "ls": e.Ls, "m": e.M, "mi": e.Mi,
+		"o": e.O, "p": e.P, "t": e.T, "ll": e.Ll, "lo": e.Lo, "mo": e.Mo,
+	}
+}
+
+// deepAssign overwrites dst with src IN PLACE wherever the shapes allow it: slices of
+// equal length element by element, maps entry by entry (keys not in src are deleted),
+// structs field by field, pointers through the pointer. Containers keep their identity.
+// It returns false when dst could not be made equal to src in place (the caller then
+// replaces the whole value).
+func deepAssign(dst, src reflect.Value) bool {
+	if dst.Type() != src.Type() {
+		return setOr(dst, src)
+	}
+	switch dst.Kind() {
+	case reflect.Ptr:
+		if dst.IsNil() || src.IsNil() {
+			return setOr(dst, src)
+		}
+		if !deepAssign(dst.Elem(), src.Elem()) {
+			return setOr(dst, src)
+		}
+		return true
+	case reflect.Interface:
+		if dst.IsNil() || src.IsNil() || dst.Elem().Type() != src.Elem().Type() {
+			return setOr(dst, src)
+		}
+		switch dst.Elem().Kind() {
+		case reflect.Slice, reflect.Map, reflect.Ptr:
+			// reference kinds: the interface holds a header / pointer, the payload is shared
+			if deepAssign(dst.Elem(), src.Elem()) {
+				return true
+			}
+		}
+		return setOr(dst, src)
+	case reflect.Slice:
+		if dst.IsNil() || src.IsNil() || dst.Len() != src.Len() {
+			return setOr(dst, src)
+		}
+		for i := 0; i < dst.Len(); i++ {
+			if !deepAssign(dst.Index(i), src.Index(i)) {
+				return setOr(dst, src)
+			}
+		}
+		return true
+	case reflect.Map:
+		if dst.IsNil() || src.IsNil() {
+			return setOr(dst, src)
+		}
+		for _, k := range dst.MapKeys() {
+			if !src.MapIndex(k).IsValid() {
+				dst.SetMapIndex(k, reflect.Value{})
+			}
+		}
+		for _, k := range src.MapKeys() {
+			old, nv := dst.MapIndex(k), src.MapIndex(k)
+			if old.IsValid() {
+				switch nv.Kind() {
+				case reflect.Slice, reflect.Map, reflect.Ptr, reflect.Interface:
+					// map values are not addressable: only payloads reachable through a
+					// reference can be updated in place
+					if deepAssign(old, nv) {
+						continue
+					}
+				}
+			}
+			dst.SetMapIndex(k, nv)
+		}
+		return true
+	case reflect.Struct:
+		if dst.Type() == reflect.TypeOf(time.Time{}) {
+			return setOr(dst, src)
+		}
+		if !dst.CanSet() {
+			return false
+		}
+		for i := 0; i < dst.NumField(); i++ {
+			if !deepAssign(dst.Field(i), src.Field(i)) {
+				return false
+			}
+		}
+		return true
+	default:
+		return setOr(dst, src)
+	}
+}
+
+func setOr(dst, src reflect.Value) bool {
+	if dst.CanSet() {
+		dst.Set(src)
+		return true
+	}
+	return false
+}
+
 // sameTyped lists, per environment, the environments that bind the same names to the same types.
 var sameTyped = map[string][]string{
-	"map": {"map", "struct", "map2", "struct2"}, "struct": {"map", "struct", "map2", "struct2"},
-	"map2": {"map", "struct", "map2", "struct2"}, "struct2": {"map", "struct", "map2", "struct2"},
+	"map": {"map", "struct", "map2", "struct2", "map3", "struct3"}, "struct": {"map", "struct", "map2", "struct2", "map3", "struct3"},
+	"map2": {"map", "struct", "map2", "struct2", "map3", "struct3"}, "struct2": {"map", "struct", "map2", "struct2", "map3", "struct3"},
+	"map3": {"map", "struct", "map2", "struct2", "map3", "struct3"}, "struct3": {"map", "struct", "map2", "struct2", "map3", "struct3"},
 	"alt": {"alt", "altstruct"}, "altstruct": {"alt", "altstruct"},
 }
 
@@ -530,6 +646,8 @@ func envHetero2() interface{} {
 var envMakers = map[string]func() interface{}{
 	"map2":      envStdMap2,
 	"struct2":   envStdStruct2,
+	"map3":      envStdMap3,
+	"struct3":   envStdStruct3,
 	"hetero1":   envHetero1,
 	"hetero2":   envHetero2,
 	"alt":       envAltMap,
